@@ -7,7 +7,7 @@ reconstruction (R4); forget addresses the same key (R5); frame rule for the retu
 import ast
 
 from .. import astutil as A
-from ..fa import FA
+from ..fa import FA, log_call
 from ..loader import AnalysisError
 from .valeq import check_typed_identity, check_json_bytes, check_enum_distinct
 from .c16 import sibling_reference_sites
@@ -1112,6 +1112,16 @@ def check_replay(ck, R):
                 cur = par
         ids = tx.nodes(nxt)
         if not ids:
+            # the graph does not know that control continues here (everything inside the with statement returns):
+            # decided on the statements themselves -- nothing but logging, then `return self`
+            par = tx.pm.get(nxt)
+            for fld in ("body", "orelse", "finalbody"):
+                blk = getattr(par, fld, None)
+                if isinstance(blk, list) and nxt in blk:
+                    for st in blk[blk.index(nxt):]:
+                        if isinstance(st, ast.Expr) and isinstance(st.value, ast.Call) and log_call(st.value):
+                            continue
+                        return isinstance(st, ast.Return) and isinstance(st.value, ast.Name) and st.value.id == (tx.fi.params or ["self"])[0]
             return False
         after = tx.cfg.reach(ids) | set(ids)
         if any(isinstance(x, ast.Raise) and set(tx.nodes(x)) & after for x in A.walk_body(tx.node)) or falls_off & after:
